@@ -19,7 +19,7 @@ RULE = ("histories over add (Note object, bare name, 'Name-octave', name+octave,
         "35 roots, 35 names x 35 interval shorthands x up/down, numerals x suffixes x 30 keys. Non-trivial: a history with an "
         "add after a remove, an enharmonic duplicate add or a list mixing octaves; a constructor case whose chord crosses an "
         "octave boundary or has >= 4 notes."
-        " Also: octave 0 (pool and an exhaustive alphabet around it), the container's own list or a returned list used as removal list, keyword forms, containers handed in earlier are re-checked after every later step and touched by the caller (third exhaustive alphabet); the from_* constructors on a container that already holds notes (documented: empty the container, then add); slash chords over their own chord notes and polychords of chords that share notes.")
+        " Also: octave 0 (pool and an exhaustive alphabet around it), the container's own list or a returned list used as removal list, keyword forms, containers handed in earlier are re-checked after every later step and touched by the caller (third exhaustive alphabet); the from_* constructors on a container that already holds notes (documented: empty the container, then add); slash chords over their own chord notes and polychords of chords that share notes. Neighbours whose octave numbers and pitch order disagree (Cb-5 / B#-4) through every removal form.")
 ASSUMPTIONS = ["bare-name octave follows the documented rule (octave of the top note, +1 if that lies below it); where that rule "
                "and 'at or above the top note' disagree (B#/Cb spellings) either outcome is accepted",
                "container is_dissonant(f) = not is_consonant(not f), mirroring the pairwise definition",
